@@ -192,7 +192,12 @@ impl FunctionCompiler<'_> {
             hir::Expr::ArrayLiteral { items, .. } => {
                 assert_ne!(items.len(), 0);
 
-                let item_ty = self.tys[loc.wrap()][items[0]];
+                // the type of the array, not of its first item: an item may be a constant of a
+                // narrower type (`i64.[some_u8_global, 5]`)
+                let item_ty = self.tys[loc.wrap()][expr]
+                    .as_array()
+                    .map(|(_, sub_ty)| sub_ty)
+                    .unwrap_or_else(|| self.tys[loc.wrap()][items[0]]);
                 let item_size = item_ty.size();
                 let item_stride = item_ty.stride();
 
@@ -201,15 +206,13 @@ impl FunctionCompiler<'_> {
                 let mut array = vec![0u8; item_stride as usize * items.len()];
 
                 for (idx, item) in items.into_iter().enumerate() {
+                    let from_ty = self.tys[loc.wrap()][item];
                     let item = self.expr_to_const_data(loc, item)?;
+                    let item = self.cast_const_data(item, from_ty, item_ty);
 
-                    unsafe {
-                        std::ptr::copy_nonoverlapping(
-                            item.as_ptr(),
-                            array.as_mut_ptr().add(idx * item_stride as usize),
-                            item_size as usize,
-                        );
-                    }
+                    let start = idx * item_stride as usize;
+                    let len = item.len().min(item_size as usize);
+                    array[start..start + len].copy_from_slice(&item[..len]);
                 }
 
                 array.into()
@@ -248,7 +251,12 @@ impl FunctionCompiler<'_> {
                     "if the value doesn't exist, `get_const` should've returned non-const, and there should be an error before codegen"
                 );
 
-                return self.expr_to_const_data(loc, local_def.value.unwrap());
+                let value = local_def.value.unwrap();
+                let from_ty = self.tys[loc.wrap()][value];
+                let to_ty = self.tys[loc.wrap()][expr];
+
+                let data = self.expr_to_const_data(loc, value)?;
+                return Ok(self.cast_const_data(data, from_ty, to_ty));
             }
             hir::Expr::LocalGlobal(global) => {
                 let fqn = Fqn {
@@ -259,7 +267,9 @@ impl FunctionCompiler<'_> {
                 assert!(!self.world_bodies.has_polymorphic_body(fqn.wrap()));
                 let tfqn = fqn.make_concrete(None);
 
-                return self.expr_to_const_data(tfqn, self.world_bodies.global_body(fqn));
+                let to_ty = self.tys[loc.wrap()][expr];
+                let data = self.global_to_const_data(tfqn)?;
+                return Ok(self.cast_const_data(data, self.tys.sig(tfqn.wrap()), to_ty));
             }
             hir::Expr::Member {
                 previous,
@@ -274,7 +284,9 @@ impl FunctionCompiler<'_> {
                     assert!(!self.world_bodies.has_polymorphic_body(fqn.wrap()));
                     let tfqn = fqn.make_concrete(None);
 
-                    return self.expr_to_const_data(tfqn, self.world_bodies.global_body(fqn));
+                    let to_ty = self.tys[loc.wrap()][expr];
+                    let data = self.global_to_const_data(tfqn)?;
+                    return Ok(self.cast_const_data(data, self.tys.sig(tfqn.wrap()), to_ty));
                 } else {
                     panic!(
                         "constant members should only access files {} #{}",
@@ -289,6 +301,113 @@ impl FunctionCompiler<'_> {
                 expr.into_raw()
             ),
         })
+    }
+
+    /// The constant data of a whole global, in the type of the global itself.
+    ///
+    /// `expr_to_const_data` builds the data with the type of the body, which may be narrower
+    /// than the annotation of the global (`x : i64 : comptime { some_i32 }`). Everything that
+    /// reads the global reads it with the global's type.
+    fn global_to_const_data(
+        &mut self,
+        loc: ConcreteGlobalLoc,
+    ) -> Result<Box<[u8]>, UnfinishedComptimeErr> {
+        let body = self.world_bodies.global_body(loc.to_naive());
+        let body_ty = self.tys[loc.wrap()][body];
+
+        let data = self.expr_to_const_data(loc, body)?;
+
+        Ok(self.cast_const_data(data, body_ty, self.tys.sig(loc.wrap())))
+    }
+
+    /// Converts constant data of the number type `from` into constant data of the number type
+    /// `to`, like a cast would do with a value at runtime. Anything else is returned as it is.
+    fn cast_const_data(&self, data: Box<[u8]>, from: Intern<Ty>, to: Intern<Ty>) -> Box<[u8]> {
+        if from == to || !(from.is_int() || from.is_float()) || !(to.is_int() || to.is_float()) {
+            return data;
+        }
+
+        let (Some(from), Some(to)) = (
+            from.get_final_ty().into_number_type(),
+            to.get_final_ty().into_number_type(),
+        ) else {
+            return data;
+        };
+
+        if from.float == to.float && from.bit_width() == to.bit_width() {
+            return data;
+        }
+
+        let endianness = self.module.isa().endianness();
+        let from_bytes = (from.bit_width() / 8) as usize;
+        if data.len() < from_bytes {
+            return data;
+        }
+
+        // widen the source to 128 bits (ints) or to an f64 (floats)
+        let mut wide = [0u8; 16];
+        match endianness {
+            Endianness::Little => wide[..from_bytes].copy_from_slice(&data[..from_bytes]),
+            Endianness::Big => wide[16 - from_bytes..].copy_from_slice(&data[..from_bytes]),
+        }
+        let raw = match endianness {
+            Endianness::Little => u128::from_le_bytes(wide),
+            Endianness::Big => u128::from_be_bytes(wide),
+        };
+
+        enum Num {
+            Int(i128),
+            UInt(u128),
+            Float(f64),
+        }
+
+        let num = if from.float {
+            match from.bit_width() {
+                32 => Num::Float(f32::from_bits(raw as u32) as f64),
+                _ => Num::Float(f64::from_bits(raw as u64)),
+            }
+        } else if from.signed && from_bytes < 16 {
+            let shift = 128 - from.bit_width() as u32;
+            Num::Int(((raw << shift) as i128) >> shift)
+        } else if from.signed {
+            Num::Int(raw as i128)
+        } else {
+            Num::UInt(raw)
+        };
+
+        let to_bytes = (to.bit_width() / 8) as usize;
+
+        let wide: [u8; 16] = if to.float {
+            let f = match num {
+                Num::Int(n) => n as f64,
+                Num::UInt(n) => n as f64,
+                Num::Float(f) => f,
+            };
+            let bits = match to.bit_width() {
+                32 => (f as f32).to_bits() as u128,
+                _ => f.to_bits() as u128,
+            };
+            match endianness {
+                Endianness::Little => bits.to_le_bytes(),
+                Endianness::Big => bits.to_be_bytes(),
+            }
+        } else {
+            let n = match num {
+                Num::Int(n) => n as u128,
+                Num::UInt(n) => n,
+                Num::Float(f) if to.signed => f as i128 as u128,
+                Num::Float(f) => f as u128,
+            };
+            match endianness {
+                Endianness::Little => n.to_le_bytes(),
+                Endianness::Big => n.to_be_bytes(),
+            }
+        };
+
+        match endianness {
+            Endianness::Little => wide[..to_bytes].into(),
+            Endianness::Big => wide[16 - to_bytes..].into(),
+        }
     }
 
     fn compile_global_binding_data(
@@ -337,7 +456,7 @@ impl FunctionCompiler<'_> {
             return Ok(self.compile_builtin_global(builtin_global));
         }
 
-        let bytes = self.expr_to_const_data(loc, value)?;
+        let bytes = self.global_to_const_data(loc)?;
 
         let global = self.create_global_data(
             &loc.to_mangled_name(self.mod_dir, self.interner),
